@@ -24,10 +24,15 @@ CHECKS = {
   level="model_checking", ref="5 C09",
   text="TLC explores CoSem (Lua 5.4 coroutine semantics: status machine, resume chain, value transfer, close, wrap, pending to-be-closed "
        "variables) and emits one script per transition; each is rendered as a Lua program and run on the real runtime; emitted values, "
-       "statuses, error values, the number of goroutines left behind and termination (watchdog) are compared with the model",
+       "statuses, error values, the number of goroutines left behind and termination (watchdog) are compared with the model. "
+       "Goroutine level: CoProto.tla (one process per goroutine, one label per statement of Resume/Yield/Close/end, two mutexes, unbuffered channels, "
+       "ghost run token) is model-checked over all interleavings for AccessOwnership, OneRunner, StatusLegal, deadlock and NoGoroutineLeft (fairness); "
+       "and the hook traces (send/sent/recv/resume/yield/dead/release/exit + every memory request/release with its goroutine) recorded while the "
+       "programs run under a memory limit are validated by TLC against CoTrace.tla, which rejects any access to runtime state by a goroutine that "
+       "does not hold the run token, independent of the scheduler exposing the race",
   note="bounded: <=3 coroutines, <=8 script actions exhaustively per (state, recent actions), random deeper scripts by TLC simulation; error message wording not compared; "
        "the goroutine-level interleaving model is separate (see DESIGN.md)",
-  technique="TLA+ spec CoSem.tla, TLC BFS + simulation, generated programs replayed on the real runtime (direction A)"),
+  technique="TLA+ specs CoSem.tla (programs replayed, direction A), CoProto.tla (interleaving model), CoTrace.tla (hook-trace validation, direction B)"),
  "C10": dict(
   level="model_checking", ref="5 C10",
   text="TLC explores CloseStack (scopes do/loop/for-in/function/pcall/coroutine, to-be-closed declarations with ok/raising/nil/false/non-closable "
@@ -88,7 +93,7 @@ def main():
     json.dump(m, open(os.path.join(HERE, "MANIFEST.json"), "w"), indent=1)
     print("MANIFEST.json: %d checks, %d not_applicable" % (len(checks), len(na)))
 
-HOOK_COMMITS = []
+HOOK_COMMITS = ["e5967ad", "aaa007e"]
 
 if __name__ == "__main__":
     main()
